@@ -186,6 +186,26 @@ def gen_history(seed, universe, cfg):
                 acts += [["expand", r1] + td, ["simplify", r1] + (td if rq.random() < 0.5 else []), ["print", r1, 0, "bg"]]
             threads.append(acts)
 
+    # scripted: two variants of ONE function (same name; another context parameter / tracing kwarg, signature, paths or
+    # option) on two fresh contexts of one target -- same names, same creation order, different graphs
+    vs = stream(seed, "variants")
+    if cfg.get("variant_pairs") and vs.random() < cfg["variant_pairs"]:
+        t = vs.choice([x for x in cfg["targets"] if x in by_target])
+        groups = {}
+        for q in by_target[t]:
+            if (q.get("params") or {}).get("__pipeline__") != "user":
+                groups.setdefault(q["func"], []).append(q)
+        multi = sorted(f for f, g in groups.items() if len(g) >= 2)
+        par = [f for f in multi if any(q.get("params") and not all(k.startswith("__") for k in q["params"]) for q in groups[f])]
+        if multi:
+            f = vs.choice(par) if par and vs.random() < 0.5 else vs.choice(multi)
+            raw = f.startswith("stress_") and vs.random() < 0.4  # both through the same pipeline
+            for q in vs.sample(groups[f], 2):
+                cid, rid = new_cid(), new_rid()
+                acts = [["ctx", cid, t] + ([q["params"], vs.choice(["ctor", "post"])] if q.get("params") else [])]
+                acts += steps(rid, cid, q, 0, "cmp" if t in cmp_targets else "bg", False, raw)
+                threads.append(acts)
+
     # two requests on unrelated contexts whose prints run concurrently in two threads of this process, with the
     # simulator deciding the interleaving at line granularity inside utils.format_cpp (the only I/O seam they share)
     if cfg.get("races") and kn.random() < cfg["races"]:
@@ -232,11 +252,16 @@ def gen_history(seed, universe, cfg):
     if cfg.get("allow_env") and kn.random() < 0.5:
         pos = kn.randrange(len(out) + 1)
         out.insert(pos, ["env", kn.choice(cfg["allow_env"])])
-    if cfg.get("env_windows") and kn.random() < 0.5:
+    if cfg.get("env_windows") and kn.random() < 0.6:
         # a formatter fault that comes and goes: what is requested after it is gone must not remember it
-        pos = kn.randrange(len(out) + 1)
+        if kn.random() < 0.5:
+            # ... present from the very start of the process (so that the FIRST use of the formatter meets it) and
+            # gone somewhere in the first half of the history
+            pos, span = 0, kn.randint(4, max(5, len(out) // 2))
+        else:
+            pos, span = kn.randrange(len(out) + 1), kn.randint(1, 8)
         out.insert(pos, ["env", kn.choice(cfg["env_windows"])])
-        out.insert(min(len(out), pos + 1 + kn.randint(1, 8)), ["env", "reset"])
+        out.insert(min(len(out), pos + 1 + span), ["env", "reset"])
     return out
 
 
